@@ -115,7 +115,7 @@ def check_c03(tier, seed):
                 'and in the thorough tier the full cross product for 2 names per side (360000); C03Law is a TLC invariant; '
                 'each case is run through PortSelect/PortsSemanticsCfg/PortsCfg/match/Builder.build on a generated component '
                 'with exactly those ports. Random configurations with up to 6 ports per side are validated by '
-                'PortSelectionTrace.tla.')
+                'PortSelectionTrace.tla. Also: every configuration made with the six preset functions of dznpy.adv_shell (mixed presets over every requires selection), and port names that differ in letter case only.')
     # (case_*: port names that differ in letter case only are different ports)
     cfgs = ['PortSelection_provides.cfg', 'PortSelection_requires.cfg', 'PortSelection_presets.cfg',
             'PortSelection_case_req.cfg', 'PortSelection_case_prov.cfg']
